@@ -41,6 +41,7 @@ type Pipeline struct {
 	Seed    uint64
 	Root    string // scratch root
 	Src     string // scratch copy of the repository (module root)
+	Pristine string // untouched copy of /repo's working tree taken at start
 	Bin     string
 	Req     string
 	Out     string
@@ -50,6 +51,10 @@ type Pipeline struct {
 	Timings map[string]float64
 	Instr   *InstrStats
 	Workers int
+	// RandomSets is the number of random corpus schema sets generated with the
+	// working-tree plugin and compiled into the codec engines.
+	RandomSets int
+	RndStats   map[string]interface{}
 }
 
 func goEnv(gobin string) []string {
@@ -128,6 +133,12 @@ func newPipeline(prop, tier string, seed uint64) *Pipeline {
 	p.Req = filepath.Join(p.Root, "req")
 	p.Out = filepath.Join(p.Root, "out")
 	p.Keep = os.Getenv("VERIF_KEEP") != ""
+	if prop != "C13" {
+		p.RandomSets = 2
+		if tier == "thorough" {
+			p.RandomSets = 8
+		}
+	}
 	return p
 }
 
@@ -151,7 +162,10 @@ func (p *Pipeline) prepare() {
 				fail("mkdir: %v", err)
 			}
 		}
-		p.run("/", os.Environ(), "rsync", "-a", "--exclude", ".git", repoDir+"/", p.Src+"/")
+		// /repo's working tree is read exactly once per check
+		p.Pristine = filepath.Join(p.Root, "pristine")
+		p.run("/", os.Environ(), "rsync", "-a", "--exclude", ".git", repoDir+"/", p.Pristine+"/")
+		p.run("/", os.Environ(), "rsync", "-a", p.Pristine+"/", p.Src+"/")
 		dst := filepath.Join(p.Src, "internal", "verifsim")
 		if _, err := os.Stat(dst); err == nil {
 			fail("%s already exists in the repository under test", dst)
@@ -176,6 +190,10 @@ type reqEntry struct {
 	Generate  []string `json:"files_to_generate"`
 	Parameter string   `json:"parameter"`
 	GoPkgDir  string   `json:"go_pkg_dir"`
+	Packages  []struct {
+		ImportPath string   `json:"import_path"`
+		Messages   []string `json:"messages"`
+	} `json:"packages,omitempty"`
 }
 
 // buildPluginAndRequests builds the working-tree plugin and writes the
@@ -188,7 +206,7 @@ func (p *Pipeline) buildPluginAndRequests() []reqEntry {
 	})
 	p.timed("reqgen", func() {
 		p.goBuild("go", filepath.Join(p.Bin, "reqgen"), false, "./internal/verifsim/cmd/reqgen")
-		p.run(p.Src, os.Environ(), filepath.Join(p.Bin, "reqgen"), "-out", p.Req)
+		p.run(p.Src, os.Environ(), filepath.Join(p.Bin, "reqgen"), "-out", p.Req, "-random", fmt.Sprint(p.RandomSets), "-seed", fmt.Sprint(p.Seed))
 		b, err := os.ReadFile(filepath.Join(p.Req, "index.json"))
 		if err != nil {
 			fail("reqgen index: %v", err)
@@ -239,4 +257,59 @@ func (p *Pipeline) generate(e reqEntry) []string {
 		}
 	})
 	return written
+}
+
+// installRandomCorpus generates the random corpus packages with the
+// working-tree plugin, keeps those that compile (whether generated code
+// compiles is property C12, not decided here; failures are counted) and
+// writes the rndcorpus package that lists their message types.
+func (p *Pipeline) installRandomCorpus(reqs []reqEntry) {
+	var imports, lits []string
+	okPkgs, badPkgs, nMsgs := 0, 0, 0
+	var bad []string
+	p.timed("random_corpus", func() {
+		for _, r := range reqs {
+			if !strings.HasPrefix(r.Name, "rnd") {
+				continue
+			}
+			func() {
+				defer func() {
+					if e := recover(); e != nil {
+						if he, ok := e.(harnessError); ok {
+							badPkgs += len(r.Packages)
+							bad = append(bad, r.Name+": "+tail(he.msg, 300))
+							return
+						}
+						panic(e)
+					}
+				}()
+				p.generate(r)
+				for _, pk := range r.Packages {
+					rel := "./" + strings.TrimPrefix(pk.ImportPath, modPath+"/")
+					if out, err := p.tryRun(p.Src, goEnv("go"), "go", "build", rel); err != nil {
+						badPkgs++
+						bad = append(bad, pk.ImportPath+": "+tail(out, 300))
+						os.RemoveAll(filepath.Join(p.Src, strings.TrimPrefix(pk.ImportPath, modPath+"/")))
+						continue
+					}
+					okPkgs++
+					alias := fmt.Sprintf("rp%d", len(imports))
+					imports = append(imports, fmt.Sprintf("\t%s %q", alias, pk.ImportPath))
+					for _, m := range pk.Messages {
+						lits = append(lits, fmt.Sprintf("\t\t&%s.%s{},", alias, m))
+						nMsgs++
+					}
+				}
+			}()
+		}
+		src := "// Code generated by simctl. DO NOT EDIT.\npackage rndcorpus\n\nimport (\n\t\"google.golang.org/protobuf/proto\"\n" + strings.Join(imports, "\n") + "\n)\n\nvar Messages = []proto.Message{\n" + strings.Join(lits, "\n") + "\n}\n"
+		if len(lits) == 0 {
+			src = "package rndcorpus\n\nimport \"google.golang.org/protobuf/proto\"\n\nvar Messages []proto.Message\n"
+		}
+		if err := os.WriteFile(filepath.Join(p.Src, "internal/verifsim/rndcorpus/corpus.go"), []byte(src), 0o644); err != nil {
+			fail("%v", err)
+		}
+	})
+	p.RndStats = map[string]interface{}{"random_schema_sets": p.RandomSets, "packages_compiled": okPkgs, "packages_skipped_generated_code_does_not_compile_or_plugin_failed": badPkgs, "message_types": nMsgs, "skipped": bad}
+	p.logf("random corpus: %d packages compiled (%d message types), %d skipped", okPkgs, nMsgs, badPkgs)
 }
